@@ -26,7 +26,7 @@ def _eval_shard(args):
     return cases, bad, p.wall, wall
 
 
-def explore(res, hx, corr, n, seed, tag, replay=None, slow=1, mode=None):
+def explore(res, hx, corr, n, seed, tag, replay=None, slow=1, mode=None, shard=None):
     """Run n generated histories (or the histories of a replay file) on the implementation
     and through the Coq side; returns (cases, [(case_obj, code, step)])."""
     base = os.path.join(core.WORK, "%s-%s-%s" % (res.prop, res.tier, tag))
@@ -38,13 +38,13 @@ def explore(res, hx, corr, n, seed, tag, replay=None, slow=1, mode=None):
         k = 0
         left = n
         while left > 0:
-            m = min(SHARD, left)
+            m = min(shard or SHARD, left)
             jobs.append((hx, corr, seed * 100003 + k, m, os.path.join(base, "s%d" % k), None, slow, mode))
             left -= m
             k += 1
     all_cases, all_bad = [], []
     hx_wall = coq_wall = 0.0
-    with cf.ThreadPoolExecutor(max_workers=8) as ex:
+    with cf.ThreadPoolExecutor(max_workers=12) as ex:
         for cases, bad, hw, cw in ex.map(_eval_shard, jobs):
             off = len(all_cases)
             for c in cases:
@@ -82,7 +82,7 @@ def confirm(res, hx, corr, suspects, mode=None):
 
 
 def standard_flow(res, hx, corr, n, signature, describe, rule, nontrivial, key, stats, assumptions,
-                  replay=None, mode=None, gen_obligations=None, level="proof", extra=None):
+                  replay=None, mode=None, gen_obligations=None, level="proof", extra=None, shard=None):
     builds = core.build_all()
     broken = []          # names of proof obligations / ties that no longer check
     if not builds["translator"]["ok"]:
@@ -118,7 +118,7 @@ def standard_flow(res, hx, corr, n, signature, describe, rule, nontrivial, key, 
             cases += c1
             bad += b1
         if not replay and n > 0:
-            c1, b1 = explore(res, hx, corr, n, res.seed, "gen", mode=mode)
+            c1, b1 = explore(res, hx, corr, n, res.seed, "gen", mode=mode, shard=shard)
             cases += c1
             bad += b1
     else:
@@ -154,7 +154,7 @@ def standard_flow(res, hx, corr, n, signature, describe, rule, nontrivial, key, 
         # intensified search for a concrete failing history (DESIGN 6.2)
         res.notes.append("intensified search after: " + "; ".join(broken + ["%d correspondence differences" % len(corr_breaks)]))
         for extra_seed in range(1, 4):
-            c2, b2 = explore(res, hx, corr, max(n, 600) * 2, res.seed + 7919 * extra_seed, "search%d" % extra_seed, mode=mode)
+            c2, b2 = explore(res, hx, corr, n * 2, res.seed + 7919 * extra_seed, "search%d" % extra_seed, mode=mode, shard=shard)
             cases += c2
             s2 = [(c, code, step) for (c, code, step) in b2 if code == 3]
             if s2:
